@@ -21,3 +21,8 @@ Definition check_q (c : qcase) : bool :=
   | QCurve P t out => qres_eqb (curve_eval Qops P t) out
   | QPatch rows u v out => qres_eqb (patch_eval Qops rows u v) out
   end.
+
+(* grid resolution: the run-length table of the values round(np.power(n, 1/d)) takes in binary64 on 0..limit
+   is accepted iff it coincides with iroot_round there (Proofs_Index.table_ok_sound) *)
+Definition check_grid_table (c : Z * Z * list (Z * Z)) : bool :=
+  let '(d, limit, l) := c in (1 <=? d)%Z && table_ok d 0 limit l.
